@@ -504,15 +504,15 @@ def db_specs(draw, kinds=KINDS_READS, max_sites=10, max_alleles=9, sv=True, pseu
             spec["collide"] = draw(st.integers(4, 6))
         if draw(st.integers(0, 2)) == 0:
             spec["unpadded"] = draw(st.integers(6, 8))
-        if keep_lost and draw(st.integers(0, 1)) == 0:
-            spec["keep_lost"] = True
-            # a database allele of a bare left fusion that repeats a plain allele's variants and adds one more (which may lie
-            # in the part of the gene the fusion does not retain)
-            bare = [a for a in alls if a.get("sv") and a["sv"][0] == "left" and not a["sites"]]
-            plain_ = [a for a in alls if not a.get("sv")]
-            if bare and plain_:
-                src = plain_[draw(st.integers(0, len(plain_) - 1))]
-                spec["alleles"] = alls + [{"sites": list(src["sites"]) + [draw(st.integers(0, ns - 1))], "sv": list(bare[0]["sv"])}]
+    if keep_lost and draw(st.integers(0, 1)) == 0:
+        spec["keep_lost"] = True
+        # a database allele of a bare left fusion that repeats a plain allele's variants and adds one more (which may lie
+        # in the part of the gene the fusion does not retain)
+        bare = [a for a in alls if a.get("sv") and a["sv"][0] == "left" and not a["sites"]]
+        plain_ = [a for a in alls if not a.get("sv")]
+        if bare and plain_:
+            src = plain_[draw(st.integers(0, len(plain_) - 1))]
+            spec["alleles"] = alls + [{"sites": list(src["sites"]) + [draw(st.integers(0, ns - 1))], "sv": list(bare[0]["sv"])}]
     if draw(st.integers(0, 2)) == 0:
         spec["region_order"] = {"hg19": draw(st.integers(0, 1000)), "hg38": draw(st.integers(0, 1000))}
     if draw(st.integers(0, 2)) == 0:
